@@ -8,6 +8,7 @@
 import WowVerif.Lemmas.C01
 import WowVerif.Lemmas.C01Whole
 import WowVerif.Lemmas.C01Bet
+import WowVerif.Lemmas.C01Het
 namespace Wv.C01
 open Wv Wv.Mpq
 
@@ -136,6 +137,33 @@ example : (Bet.layoutOf [⟨32, 3000000, 3000000, 0⟩, ⟨3000032, 1500011, 900
 example : Bet.readRow (Bet.layoutOf [⟨32, 3000000, 3000000, 0⟩, ⟨3000032, 1500011, 90000, 1⟩] 2)
     (Bet.tableBytes (Bet.layoutOf [⟨32, 3000000, 3000000, 0⟩, ⟨3000032, 1500011, 90000, 1⟩] 2) [⟨32, 3000000, 3000000, 0⟩, ⟨3000032, 1500011, 90000, 1⟩]) 1
     = some ⟨3000032, 1500011, 90000, 1⟩ := by decide +kernel
+
+/-! ## the extended hash table of V3/V4 archives and the lookup through it (Model.C01Het) -/
+
+/-- EXTENDED LOOKUP FINDS EVERY ADDED FILE: after the builder has inserted the files, a lookup of file `k`'s name walks
+    to a slot that carries `k`'s index (it is among the candidates), for every table the builder completes -/
+theorem het_finds (hashes : List Nat) (t : Het.Tab) (h : Het.build hashes = some t) (k : Nat) (hk : k < hashes.length) :
+    k ∈ Het.lookup t hashes.length hashes[k] := Het.build_finds hashes t h k hk
+
+/-- … AND RESOLVES TO THAT FILE: with pairwise different 64-bit name hashes, the first candidate confirmed against the
+    block-entry table's name-hash array is `k` itself, whatever else shares its 8-bit table byte -/
+theorem het_resolves_own (hashes : List Nat) (t : Het.Tab) (h : Het.build hashes = some t)
+    (hd : hashes.Pairwise (· ≠ ·)) (k : Nat) (hk : k < hashes.length) :
+    Het.resolve hashes hashes[k] (Het.lookup t hashes.length hashes[k]) = some k := Het.resolve_own hashes t h hd k hk
+
+/-- A NAME THAT WAS NEVER ADDED resolves to nothing through the extended tables, on any table: no candidate's 64-bit
+    hash equals the name's -/
+theorem het_absent (hashes : List Nat) (t : Het.Tab) (full : Nat) (hn : full ∉ hashes) (m : Nat) :
+    Het.resolve hashes full (Het.lookup t m full) = none := Het.resolve_absent hashes t full hn m
+
+/-- the byte stored for a name is never the free-slot marker (the hypothesis the proof of `het_finds` forced: with the
+    marker 0xFF the code used before repair D63 this is false for one name in 128) -/
+theorem het_name_byte_never_free (full : Nat) : Het.nameHash1 full ≠ Het.FREE := Het.nameHash1_ne_free full
+
+/-! non-vacuity: three files, two of them sharing the table byte 0xFF (full hashes ending in 0x7F and 0xFF) -/
+example : (Het.build [0x1234567F, 0xABCDEFFF, 0x55550081]).isSome = true := by decide +kernel
+example : (Het.build [0x1234567F, 0xABCDEFFF, 0x55550081]).map (fun t => Het.lookup t 3 0xABCDEFFF) = some [0, 1] := by decide +kernel
+example : (Het.build [0x1234567F, 0xABCDEFFF, 0x55550081]).map (fun t => Het.resolve [0x1234567F, 0xABCDEFFF, 0x55550081] 0xABCDEFFF (Het.lookup t 3 0xABCDEFFF)) = some (some 1) := by decide +kernel
 
 /-! non-vacuity: a 4-slot table with a collision chain -/
 example : findIn (insertIn (insertIn (List.replicate 4 emptyHash) [1, 2, 0, 0] [3, 0, 1, 2]) [5, 6, 0, 1] [3, 0, 1, 2]) 5 6 [3, 0, 1, 2] = some 1 := by decide
